@@ -145,6 +145,8 @@ func (w *_nodeRepr) LookupByString(key string) (datamodel.Node, error) {
 		w = w.asKinded(stg, datamodel.Kind_Map)
 	}
 	switch stg := reprStrategy(w.schemaType).(type) {
+	case schema.StructRepresentation_Stringjoin:
+		return nil, datamodel.ErrWrongKind{TypeName: w.schemaType.Name() + ".Repr", MethodName: "LookupByString", AppropriateKind: datamodel.KindSet_JustMap, ActualKind: datamodel.Kind_String}
 	case schema.StructRepresentation_Map:
 		revKey := inboundMappedKey(w.schemaType.(*schema.TypeStruct), stg, key)
 		v, err := (*_node)(w).LookupByString(revKey)
@@ -436,7 +438,7 @@ func (w *_nodeRepr) lengthMinusTrailingAbsents() int64 {
 
 func (w *_nodeRepr) Length() int64 {
 	switch stg := reprStrategy(w.schemaType).(type) {
-	case schema.StructRepresentation_Stringjoin:
+	case schema.StructRepresentation_Stringjoin, schema.UnionRepresentation_Stringprefix:
 		return -1
 	case schema.StructRepresentation_Map:
 		return w.lengthMinusAbsents()
@@ -530,6 +532,8 @@ func (w *_nodeRepr) AsFloat() (float64, error) {
 
 func (w *_nodeRepr) AsString() (string, error) {
 	switch stg := reprStrategy(w.schemaType).(type) {
+	case schema.EnumRepresentation_Int:
+		return "", datamodel.ErrWrongKind{TypeName: w.schemaType.Name() + ".Repr", MethodName: "AsString", AppropriateKind: datamodel.KindSet_JustString, ActualKind: datamodel.Kind_Int}
 	case schema.StructRepresentation_Stringjoin:
 		var b strings.Builder
 		itr := (*_node)(w).MapIterator()
